@@ -147,7 +147,7 @@ def run(ctx):
         results = run_all([rec_to_case(r) for r in pick], d, "site")
         n_fail = n_pred_ok = n_unpred = n_stale = 0
         for rec, res in zip(pick, results):
-            predicted = rec["failure"] != "none" and rec["dev"] != "relr-parity"   # MUTATION DEMO
+            predicted = rec["failure"] != "none"
             real = bool(res["alloc"])
             ld_ok = res.get("ld_rc") == 0
             if real:
